@@ -119,6 +119,23 @@ Reap(st, upto) == [st EXCEPT !.tombs = {t \in @ : t.i > upto}]
 KeyLess(a, b) == \E i \in 1..Len(b) : /\ i - 1 <= Len(a) /\ SubSeq(a, 1, i-1) = SubSeq(b, 1, i-1)
                                       /\ (i > Len(a) \/ a[i] < b[i])
 KVList(st, p) == SetToSortSeq({x \in st.kv : IsPrefix(p, x.k)}, LAMBDA a, b : KeyLess(a.k, b.k))
+\* KVS.ListKeys (kvs_endpoint.go): keys under the prefix, cut after the first separator that follows
+\* the prefix, duplicates dropped, order kept
+FirstSep(after, sep) ==
+  IF sep = <<>> THEN 0
+  ELSE LET hits == {i \in 1..(Len(after) - Len(sep) + 1) : SubSeq(after, i, i + Len(sep) - 1) = sep}
+       IN IF hits = {} THEN 0 ELSE CHOOSE i \in hits : \A j \in hits : i <= j
+CutKey(k, p, sep) ==
+  LET i == FirstSep(SubSeq(k, Len(p) + 1, Len(k)), sep)
+  IN IF i = 0 THEN k ELSE SubSeq(k, 1, Len(p) + i + Len(sep) - 1)
+RECURSIVE Dedup(_, _)
+Dedup(s, seen) == IF s = <<>> THEN <<>>
+                  ELSE IF Head(s) \in seen THEN Dedup(Tail(s), seen)
+                  ELSE <<Head(s)>> \o Dedup(Tail(s), seen \cup {Head(s)})
+KVKeys(st, p, sep) ==
+  LET l == KVList(st, p) IN
+  IF sep = <<>> THEN [i \in DOMAIN l |-> l[i].k]
+  ELSE Dedup([i \in DOMAIN l |-> CutKey(l[i].k, p, sep)], {})
 \* kvsListTxn index rule
 KVTableIdx(st) == IF Tix(st, "kvs") > Tix(st, "tombstones") THEN Tix(st, "kvs") ELSE Tix(st, "tombstones")
 KVListIdx(st, p) ==
